@@ -49,12 +49,18 @@ mut("c19_zi_lock_order_inversion", "C19", "deadlock", [
  (ZI, "        let info = names.get(query)?;\n        #[cfg(jiff_verif)]\n        crate::verif::acquire_write(&self.zones, \"zi.get.zones_write\");\n        let mut zones = self.zones.write().unwrap();",
       "        #[cfg(jiff_verif)]\n        crate::verif::acquire_write(&self.zones, \"zi.get.zones_write\");\n        let mut zones = self.zones.write().unwrap();\n        let info = names.get(query)?;"),
 ])
-mut("c19_stat_after_read_zi", "C19", "freshness", [(ZI,
- "        #[cfg(jiff_verif)]\n        crate::verif::point(\"zi.new.stat\");\n        let last_modified = util::fs::last_modified_from_file(path, &file);\n        let mut data = vec![];\n        #[cfg(jiff_verif)]\n        crate::verif::point(\"zi.new.read\");\n        file.read_to_end(&mut data).map_err(|e| Error::io(e).path(path))?;",
- "        let mut data = vec![];\n        #[cfg(jiff_verif)]\n        crate::verif::point(\"zi.new.read\");\n        file.read_to_end(&mut data).map_err(|e| Error::io(e).path(path))?;\n        #[cfg(jiff_verif)]\n        crate::verif::point(\"zi.new.stat\");\n        let last_modified = util::fs::last_modified_from_file(path, &file);")])
-mut("c19_stat_after_read_cc", "C19", "freshness", [(CC,
- "        #[cfg(jiff_verif)]\n        crate::verif::point(\"cc.new.stat\");\n        let last_modified = util::fs::last_modified_from_file(path, &file);\n        let db = ConcatenatedTzif::open(&file)?;\n        let Some(tz) = db.get(query, scratch1, scratch2)? else {\n            return Ok(None);\n        };",
- "        let db = ConcatenatedTzif::open(&file)?;\n        let Some(tz) = db.get(query, scratch1, scratch2)? else {\n            return Ok(None);\n        };\n        #[cfg(jiff_verif)]\n        crate::verif::point(\"cc.new.stat\");\n        let last_modified = util::fs::last_modified_from_file(path, &file);")])
+mut("c19_stat_after_read_zi", "C19", "freshness", [
+ (ZI, "        #[cfg(jiff_verif)]\n        crate::verif::point(\"zi.new.stat\");\n        let last_modified = util::fs::last_modified_from_file(path, &file);\n        let mut data = vec![];",
+      "        let mut data = vec![];"),
+ (ZI, "        file.read_to_end(&mut data).map_err(|e| Error::io(e).path(path))?;",
+      "        file.read_to_end(&mut data).map_err(|e| Error::io(e).path(path))?;\n        #[cfg(jiff_verif)]\n        crate::verif::point(\"zi.new.stat\");\n        let last_modified = util::fs::last_modified_from_file(path, &file);"),
+])
+mut("c19_stat_after_read_cc", "C19", "freshness", [
+ (CC, "        #[cfg(jiff_verif)]\n        crate::verif::point(\"cc.new.stat\");\n        let last_modified = util::fs::last_modified_from_file(path, &file);\n        let db = ConcatenatedTzif::open(&file)?;",
+      "        let db = ConcatenatedTzif::open(&file)?;"),
+ (CC, "            return Ok(None);\n        };\n        let expiration = Expiration::after(ttl);",
+      "            return Ok(None);\n        };\n        #[cfg(jiff_verif)]\n        crate::verif::point(\"cc.new.stat\");\n        let last_modified = util::fs::last_modified_from_file(path, &file);\n        let expiration = Expiration::after(ttl);"),
+])
 mut("c19_ttl_doubled_on_revalidate", "C19", "freshness", [(ZI,
  "        self.expiration = Expiration::after(ttl);\n        true\n    }",
  "        self.expiration = Expiration::after(ttl * 2);\n        true\n    }")])
@@ -71,6 +77,16 @@ mut("c19_cc_reset_keeps_zones", "C19", "freshness", [(CC,
 mut("c19_bundled_prefix_compare", "C19", "bundled_answer", [(BD,
  "                utf8::cmp_ignore_ascii_case(&entry.name, query)",
  "                utf8::cmp_ignore_ascii_case(\n                    &entry.name[..entry.name.len().min(8)],\n                    &query[..query.len().min(8)],\n                )")])
+
+mut("c19_zi_stale_on_reload_error", "C19", "freshness", [(ZI,
+ "                            \"failed to re-cache time zone from file {}: {_err}\",\n                            info.inner.full.display(),\n                        );\n                        return None;",
+ "                            \"failed to re-cache time zone from file {}: {_err}\",\n                            info.inner.full.display(),\n                        );\n                        return Some(zones.zones[i].tz.clone());")])
+mut("c19_zi_no_mtime_means_unchanged", "C19", "freshness", [(ZI,
+ "                info.inner.full.display(),\n            );\n            return false;\n        };\n        #[cfg(jiff_verif)]\n        crate::verif::point(\"zi.revalidate.stat\");",
+ "                info.inner.full.display(),\n            );\n            return true;\n        };\n        #[cfg(jiff_verif)]\n        crate::verif::point(\"zi.revalidate.stat\");")])
+mut("c19_cc_stale_on_reload_error", "C19", "freshness", [(CC,
+ "                            path = path.display(),\n                        );\n                        return None;\n                    }\n                };\n                let tz = czone.tz.clone();\n                zones.zones[i] = czone;",
+ "                            path = path.display(),\n                        );\n                        return Some(zones.zones[i].tz.clone());\n                    }\n                };\n                let tz = czone.tz.clone();\n                zones.zones[i] = czone;")])
 
 # ---- C20 -------------------------------------------------------------
 mut("c20_clone_tzif_no_increment", "C20", "premature_free|double_free", [(TZ,
